@@ -319,9 +319,11 @@ impl<SVC: Service> CloudServer<SVC> {
         // replica that has uploaded a version but not changed "latest" yet, or to a version
         // added since "latest" was read, and is allowed to stay.
         let onchain_parents: HashSet<Uuid> = rev_chain.values().copied().collect();
+        let mut losers = HashSet::new();
         for (c, p, _) in versions {
             if rev_chain.get(&c) != Some(&p) && onchain_parents.contains(&p) {
                 self.service.del(&Self::version_name(&p, &c)).await?;
+                losers.insert(c);
             }
         }
 
@@ -359,13 +361,22 @@ impl<SVC: Service> CloudServer<SVC> {
             }
         }
 
-        // If there's a latest snapshot, delete all other snapshots.
+        // If there's a latest snapshot, delete the snapshots of the versions before it on the
+        // chain, and of versions that can never be on the chain. A snapshot of any other version
+        // may be for a version added since "latest" was read, newer than the one found here, and
+        // is allowed to stay.
         let Some(latest_snapshot) = latest_snapshot else {
             // If there's no snapshot, no further cleanup is possible.
             return Ok(());
         };
+        let mut older_versions = losers;
+        let mut version = latest_snapshot;
+        while let Some(parent) = rev_chain.get(&version) {
+            older_versions.insert(*parent);
+            version = *parent;
+        }
         for version in snapshots {
-            if version != latest_snapshot {
+            if older_versions.contains(&version) {
                 self.service.del(&Self::snapshot_name(&version)).await?;
             }
         }
